@@ -333,6 +333,39 @@ func c19(r *hx.Run) {
 					r.InconclusiveCase(fmt.Sprintf("group %d: a plain request took %v and hit the location's proxy timeout", g.ID, dt.Round(time.Millisecond)))
 					continue
 				}
+				if res.Err == nil && res.Status >= 400 && len(fs) == 0 {
+					// refused by pike itself with the transport's error text, which names the address it dialled
+					text := string(res.Decoded)
+					if len(text) > 300 {
+						text = text[:300]
+					}
+					cs["error_text"] = text
+					toDown, toAllowed := -1, false
+					for i, oi := range g.Servers {
+						if a := g.w.farm.Origins[oi].Addr; a != "" && strings.Contains(text, a) {
+							if !g.Up[i] {
+								toDown = i
+							}
+							for _, al := range allowed {
+								if al == i {
+									toAllowed = true
+								}
+							}
+						}
+					}
+					if toDown >= 0 {
+						r.Violate("forwarded_to_unhealthy_server", map[string]string{"policy": g.Policy}, fmt.Sprintf("status %d: the request was sent to the server at position %d, which is down (up=%v): %s", res.Status, toDown, g.Up, text), res.Brief(), cs)
+						bad = true
+						continue
+					}
+					// a transport failure on the way to a rightly chosen server is not a matter of selection: the request
+					// is repeated, and only a repeated failure is judged
+					again := g.w.cl.Do(hx.Req{Method: "POST", Addr: g.w.addr, Host: "c19.example", URI: fmt.Sprintf("/g%d/r?n=%d&again=1", g.ID, reqN), Body: []byte("x"), Timeout: 8 * time.Second})
+					if again.Err == nil && again.Status == 200 {
+						r.InconclusiveCase(fmt.Sprintf("group %d: one request failed on the way to a healthy server (to an allowed server: %v; status %d: %s) and succeeded when repeated", g.ID, toAllowed, res.Status, text))
+						continue
+					}
+				}
 				if res.Err != nil || res.Status != 200 || len(fs) != 1 {
 					r.Violate("request_failed_although_a_server_is_healthy", map[string]string{"policy": g.Policy}, fmt.Sprintf("status %d err %v, upstream contacts %d", res.Status, res.Err, len(fs)), res.Brief(), cs)
 					bad = true
